@@ -535,7 +535,13 @@ def array_binop(it, a, op, other, reflected):
     else:
         rk, rn = arr_kind(a), arr_itemsize(a)
     e = elem_op(it, op, s, arr_elem(a)) if reflected else elem_op(it, op, arr_elem(a), s)
-    return new_array(it, e, rk, rn, a, "binop")
+    res = new_array(it, e, rk, rn, a, "binop")
+    if op == "*" and isinstance(other, int) and not isinstance(other, bool) and other == 1:
+        # array * 1: a copy holding exactly the same numbers (ghost provenance is kept)
+        for ghost in ("origin", "converted_from"):
+            if getattr(arr_buf(a), ghost, None) is not None:
+                setattr(arr_buf(res), ghost, getattr(arr_buf(a), ghost))
+    return res
 
 
 def array_inplace(it, op, a, v):
